@@ -566,12 +566,18 @@ register('C19', 'proof',
          'mock ProcessStatus, its info_map, its running_identifiers and every per-instance payload of that map - is '
          'allocated by the constructor (so the writes of feed_model / start cannot reach a live status), that the live '
          'process is not modified, and structurally that the model classes override exactly the interacting methods with '
-         'bodies that never name the transport or the listener.',
+         'bodies that never name the transport or the listener. ProcessStartCommandModel.start (contracts/c19_model.py): '
+         'emits no effect at all (no request), writes only the sequence counter of the command, the running set of ITS '
+         'process (the mock) and the event list of the model, and every event it appends names that mock on the instance '
+         'of the command (so that the writes of feed_model land in the mock).',
          not_decided=['clause 2 (the predicted placement equals the placement of a real start): a relational property of two '
                       'executions on cloned clusters',
                       'the frame of the whole call tree of test_start_application / test_start_processes (store_application -> '
                       'resolve_rules writes the live rules; Starter.after is not overridden by the model and may call the real '
                       'stopper) is NOT under contract: only the model-object isolation is proved',
-                      'feed_model / StarterModel.next themselves (comprehensions over three nested plans)'],
+                      'StarterModel.next (comprehension over three nested plans); StarterModel.feed_model: the event loop is '
+                      'proved to write mocks only under an assumed abstraction of Commander.on_event, but the facet is PARKED '
+                      '(contracts/wip_c19_feed.txt): the engine cannot type the dict literals built by the comprehension of the '
+                      'return expression'],
          assumptions=['ProcessStatus contracts of C11'],
          extra='pyvc.structural_c19')
